@@ -347,6 +347,9 @@ func init() {
 			}
 			// generated paths x generated documents; reuse after errors; concurrent sharing
 			r := c.RNG(0)
+			if c.Idx%16 == 3 {
+				c20IndexForms(c, 900)
+			}
 			// two paths per batch come from a fixed list of array-only paths (they get array documents
 			// with empty arrays spelled with and without interior whitespace)
 			arrayPaths := []struct {
@@ -518,6 +521,64 @@ func renderNodes(ns []*oracle.Node) string {
 
 // tailoredDoc builds a document in which the path selects something (variant 1 adds siblings,
 // repeated names at several depths and non-matching branches).
+// c20IndexForms: index texts over the property's alphabet (digits, letters, dot) of every spelling a
+// lenient integer parser would take (leading zeros, base prefixes, underscores, exponents) against a
+// 12-element array. The reference
+// reads a run of decimal digits as a decimal number and rejects everything else.
+func c20IndexForms(c *rt.Ctx, sub0 int) {
+	doc := `[100,101,102,103,104,105,106,107,108,109,110,111]`
+	texts := []string{"0", "1", "7", "8", "9", "10", "11", "12", "00", "01", "07", "08", "09", "010", "011", "0010", "0x1", "0X1", "0b1", "0o7", "1_0", "1_1", "1e1", "1.0", "", "0x", "1a", "a1", "0e0", "123456789012345678"}
+	for ti, txt := range texts {
+		ps := "$[" + txt + "]"
+		if !c.Cur(sub0+ti, "shapes=core\npath: "+ps) {
+			continue
+		}
+		digits := txt != ""
+		for _, ch := range txt {
+			if ch < '0' || ch > '9' {
+				digits = false
+			}
+		}
+		p, err := gojson.CreatePath(ps)
+		c.Eval(1)
+		if digits != (err == nil) {
+			kind := "accepts-malformed-index"
+			if err != nil {
+				kind = "rejects-decimal-index"
+			}
+			c.Violate(rt.Violation{Monitor: "path-parse", Entry: "CreatePath", Kind: kind, Ctx: "index-text", Detail: fmt.Sprintf("CreatePath(%q): %v", ps, err), Input: ps, Sub: sub0 + ti})
+			continue
+		}
+		if err != nil {
+			continue
+		}
+		var parts [][]byte
+		var eerr error
+		pan, msg, _ := rt.Guard(func() { parts, eerr = p.Extract([]byte(doc)) })
+		c.Eval(1)
+		idx := -1
+		if len(txt) < 10 {
+			fmt.Sscanf(strings.TrimLeft(txt, "0")+"", "%d", &idx)
+			if strings.TrimLeft(txt, "0") == "" {
+				idx = 0
+			}
+		}
+		want := ""
+		if idx >= 0 && idx < 12 {
+			want = fmt.Sprint(100 + idx)
+		}
+		got := ""
+		if len(parts) == 1 {
+			got = string(parts[0])
+		}
+		if pan || (want != "" && (eerr != nil || got != want)) || (want == "" && eerr == nil && len(parts) > 0) {
+			c.Violate(rt.Violation{Monitor: "path-select", Entry: "Extract", Kind: "selection-mismatch:index-text", Ctx: "index-text",
+				Detail: fmt.Sprintf("path %s on %s: Extract = %q (err %v %s); the decimal index selects %q", ps, doc, parts, eerr, msg, want), Input: map[string]any{"path": ps, "doc": doc}, Sub: sub0 + ti})
+		}
+		c.NonTrivial("index-form", txt)
+	}
+}
+
 func tailoredDoc(r *rand.Rand, steps []pstep, variant int) string {
 	leaf := []string{`1`, `"v"`, `{"a":1,"b":[2]}`, `[1,2,3]`, `null`}[r.Intn(5)]
 	cur := leaf
